@@ -83,6 +83,11 @@ class Run(object):
             for a in d.inflight[: f["pending"]]:
                 if a[2] is None and tuple(a) not in self.interim_sent:  # (an action that is canceling does not turn pending)
                     ops.append(("pend", a))
+        if f["pending"]:
+            # (lazy first reports: the very first report of an action may be `pending`)
+            for a in getattr(d, "unstarted", ()):
+                if a[2] is None:
+                    ops.extend([("pend", a)] * 3)
         if f["interim"] and s == st.CANCELING:
             for a in d.inflight:
                 if tuple(a) not in self.interim_sent and list(a) not in getattr(d, "unstarted", ()):
